@@ -3,6 +3,11 @@ package main
 import (
 	"encoding/json"
 	"fmt"
+	"os"
+	"path/filepath"
+	"syscall"
+
+	"github.com/XiXi-2024/xixi-kv/verifrt/iorec"
 )
 
 // ---- shared alphabets -------------------------------------------------------------------------
@@ -167,6 +172,8 @@ func init() {
 					{Name: "tiny-d4b2", Cfgs: bothPools(defaultCfg), Keys: keysAB, Alpha: tinyAlphabet, Depth: 4, Dev: 2, Run: runC01},
 					{Name: "block-d3b2", Cfgs: append(bothPools(blockCfg()), oddBlockCfg()), Keys: keysAB, Alpha: blockAlphabet, Depth: 3, Dev: 2, Run: runC01},
 					deleteBatchLevel(runC01, 3),
+					{Name: "many-files-d4", Cfgs: []Cfg{manyFilesCfg()}, Keys: keysAB, Alpha: manyFilesAlphabet, Depth: 4, Dev: 4, Run: runC01},
+					{Name: "fault-d3", Cfgs: c01FaultCfgs(), Keys: keysAB, Alpha: c01FaultAlphabet, Depth: 3, Dev: 3, Run: runC01Fault},
 				})
 			}
 			bt := blockCfg()
@@ -180,6 +187,8 @@ func init() {
 				{Name: "tiny-d4b2", Cfgs: tinyCfgs(), Keys: keysAB, Alpha: tinyAlphabet, Depth: 4, Dev: 2, Run: runC01},
 				{Name: "tiny-d5b3", Cfgs: bothPools(defaultCfg), Keys: keysAB, Alpha: tinyAlphabet, Depth: 5, Dev: 3, Split: 2, Run: runC01},
 				{Name: "block-d4b3", Cfgs: bothPools(bt, bt2, bt3), Keys: keysAB, Alpha: blockAlphabet, Depth: 4, Dev: 3, Run: runC01},
+				{Name: "many-files-d4", Cfgs: []Cfg{manyFilesCfg()}, Keys: keysAB, Alpha: manyFilesAlphabet, Depth: 4, Dev: 4, Run: runC01},
+				{Name: "fault-d4", Cfgs: c01FaultCfgs(), Keys: keysAB, Alpha: c01FaultAlphabet, Depth: 4, Dev: 4, Run: runC01Fault},
 			})
 		},
 		Bounds: func(tier string) map[string]any {
@@ -193,6 +202,171 @@ func init() {
 			}
 			return m
 		},
-		Replay: func(raw json.RawMessage) { seqReplayMain(raw, runC01) },
+		Replay: func(raw json.RawMessage) {
+			var e struct {
+				Engine string `json:"engine"`
+			}
+			json.Unmarshal(raw, &e)
+			if e.Engine == "fault" {
+				seqReplayMain(raw, runC01Fault)
+				return
+			}
+			seqReplayMain(raw, runC01)
+		},
 	})
+}
+
+// ---- a failed operation is not a successful write ---------------------------------------------------------------
+// "Get returns the bytes of the most recent SUCCESSFUL Put ...": for every history of the level, every I/O call of the
+// LAST operation fails once (EIO; for writes also a short write). If the operation then reports an error, every read
+// path still shows the mapping before it; if it reports success, the mapping after it. Two further writes and a
+// restart follow: the instance keeps working, the directory opens, and the recovered mapping is the live one - except
+// that the failed operation itself may or may not have reached the log (its write may have succeeded before a later
+// call failed): both are accepted after the restart.
+func runC01Fault(cfg Cfg, keys []string, ops []Op, res *TaskResult) *Violation {
+	hist, last := ops[:len(ops)-1], ops[len(ops)-1]
+	if last.K == "batch" && cfg.FileSize < 1000 {
+		// a staging call that fails leaves the caller with a half-staged batch and no way to discard it (there is no
+		// rollback; Commit is the only call that releases the database lock): only faults INSIDE Commit are judged, under
+		// the configuration in which staging performs no I/O (the batch does not overflow the file)
+		return nil
+	}
+	n := -1
+	for k := -1; n < 0 || k < n; k++ {
+		for _, short := range []bool{false, true} {
+			if k < 0 && short {
+				continue
+			}
+			beginExecution()
+			w := NewWorld(cfg, keys)
+			res.Execs++
+			if err := w.Open(); err != nil {
+				w.Destroy()
+				return nil
+			}
+			ok := true
+			for _, op := range hist {
+				if ar := w.Apply(op); ar.Err != nil || w.Dead {
+					ok = false
+					break
+				}
+				res.Transitions++
+			}
+			if !ok {
+				w.Destroy()
+				return nil
+			}
+			before := copyModel(w.Model)
+			calls, injectedAt, wasWrite := 0, "", false
+			iorec.Before = func(op, path, path2 string, nn int64) error {
+				if op == "read" {
+					return nil // reads of the operation are not faulted here (C06 does that for Merge)
+				}
+				calls++
+				if calls-1 == k {
+					wasWrite = op == "write"
+					if short {
+						if op != "write" || nn < 2 {
+							return nil
+						}
+						injectedAt = fmt.Sprintf("call #%d %s %s storing %d of %d bytes", k, op, filepath.Base(path), nn/2, nn)
+						return &iorec.ShortWrite{N: int(nn / 2)}
+					}
+					injectedAt = fmt.Sprintf("call #%d %s %s", k, op, filepath.Base(path))
+					return &os.PathError{Op: op, Path: path, Err: syscall.EIO}
+				}
+				return nil
+			}
+			ar := w.Apply(last)
+			iorec.Before = nil
+			res.Transitions++
+			if k < 0 {
+				n = calls
+				w.Destroy()
+				if ar.Err != nil {
+					return nil
+				}
+				continue
+			}
+			if injectedAt == "" {
+				w.Destroy()
+				continue // (short write asked for a call that is not a write)
+			}
+			_ = wasWrite
+			fail := func(clause, detail string) *Violation {
+				w.Destroy()
+				return &Violation{Prop: "C01", Clause: clause, Sig: clause + ":" + last.K, Detail: fmt.Sprintf("cfg=%s trace=[%s] with %s failing during the last operation\n%s", cfg, traceString(ops), injectedAt, detail),
+					Replay: mustJSON(seqReplay{Engine: "fault", Prop: "C01", Cfg: cfg, Keys: keys, Ops: ops, Trace: traceString(ops), Extra: map[string]int{"fault_at": k}})}
+			}
+			if errClass(ar.Err) == "panic" {
+				return fail("fault-panic", fmt.Sprintf("%s panicked: %s", last, panicDetail(ar.Err)))
+			}
+			res.Evals++
+			res.count("faults_injected", 1)
+			if w.Dead || w.DB == nil {
+				w.Destroy()
+				continue
+			}
+			if c, d := w.CheckReads(); c != "" {
+				return fail("fault-mapping:"+c, fmt.Sprintf("%s returned %s; afterwards: %s\nmapping before the operation: %s", last, errClass(ar.Err), d, modelString(before)))
+			}
+			// the instance keeps working
+			for _, op := range []Op{{K: "put", Key: "a", VC: "S"}, {K: "put", Key: "b", VC: "S"}} {
+				ar2 := w.Apply(op)
+				if errClass(ar2.Err) == "panic" {
+					return fail("fault-then-panic", fmt.Sprintf("%s returned %s; the next %s panicked: %s", last, errClass(ar.Err), op, panicDetail(ar2.Err)))
+				}
+				if ar2.Err != nil || w.Dead {
+					res.count("later_write_refused", 1)
+					break // refusing further writes after an I/O error is an error return, not a wrong answer
+				}
+				if c, d := w.CheckReads(); c != "" {
+					return fail("fault-then-mapping:"+c, fmt.Sprintf("%s returned %s; after the next %s: %s", last, errClass(ar.Err), op, d))
+				}
+			}
+			if w.Dead || w.DB == nil {
+				w.Destroy()
+				continue
+			}
+			live := copyModel(w.Model)
+			if err := w.Close(); err != nil {
+				res.count("close_failed_after_fault", 1)
+				w.Destroy()
+				continue
+			}
+			if err := w.Open(); err != nil {
+				return fail("fault-restart", fmt.Sprintf("%s returned %s; after two more writes and a clean Close, Open fails: %s", last, errClass(ar.Err), panicDetail(err)))
+			}
+			// the failed operation may have reached the log: for keys the two later writes did not overwrite, both the
+			// mapping with and without it are accepted; they overwrite a and b, so the live mapping is THE answer unless
+			// the failed operation touched another key (it does not in this alphabet)
+			w.Model = live
+			if c, d := w.CheckReads(); c != "" {
+				return fail("fault-restart-mapping:"+c, fmt.Sprintf("%s returned %s; after two more writes and a restart: %s", last, errClass(ar.Err), d))
+			}
+			w.Destroy()
+		}
+	}
+	res.Nontrivial++
+	return nil
+}
+
+func c01FaultCfgs() []Cfg {
+	al := defaultCfg
+	al.Sync = 1 // Always: every Put / Delete also flushes
+	mm := defaultCfg
+	mm.IO = 1
+	roomy := defaultCfg
+	roomy.FileSize = 1000 // batches do not overflow: all their I/O happens inside Commit
+	return []Cfg{defaultCfg, al, mm, roomy}
+}
+
+func c01FaultAlphabet(c Cfg) []Op {
+	return []Op{
+		{K: "put", Key: "a", VC: "S"},
+		{K: "put", Key: "b", VC: "L"},
+		{K: "del", Key: "a"},
+		{K: "put", Key: "b", VC: "X"}, // rotates
+		{K: "batch", Sub: []Op{{K: "put", Key: "a", VC: "S"}, {K: "del", Key: "b"}}},
+	}
 }
